@@ -36,6 +36,7 @@ Nothing here judges the property: the recorded events go to TLC (spec/Exchange_T
 from __future__ import annotations
 
 import re
+import socket
 import warnings
 
 from . import net as vnet
@@ -94,6 +95,37 @@ def parse_tag(value) -> dict:
     return {"t": m.group(1), "k": "head", "r": int(m.group(2)), "s": int(m.group(3)), "n": int(m.group(4)), "i": 0}
 
 
+class PeekVSocket(vnet.VSocket):
+    """vh/net.py's VSocket.recv drops its flags, so recv(1, MSG_PEEK) would CONSUME a byte there (a harness
+    artefact that garbles the next status line and hides a probe that peeks).  Honour MSG_PEEK: look at the
+    kernel buffer without taking anything out of it and without logging a RECV."""
+
+    def recv(self, bufsize, flags=0):
+        if flags & socket.MSG_PEEK:
+            self._peer.pump()
+            try:
+                return socket.socket.recv(self, bufsize, flags | socket.MSG_DONTWAIT)
+            except (BlockingIOError, InterruptedError):
+                raise socket.timeout("timed out") from None
+        return super().recv(bufsize)
+
+    def recv_into(self, buffer, nbytes=0, flags=0):
+        if flags & socket.MSG_PEEK:
+            self._peer.pump()
+            try:
+                return socket.socket.recv_into(self, buffer, nbytes, flags | socket.MSG_DONTWAIT)
+            except (BlockingIOError, InterruptedError):
+                raise socket.timeout("timed out") from None
+        return super().recv_into(buffer, nbytes)
+
+
+class PeekNet(vnet.Net):
+    def create_connection(self, *a, **k):
+        vs = super().create_connection(*a, **k)
+        vs.__class__ = PeekVSocket
+        return vs
+
+
 class World:
     """One history: network, scripted peers, pool, ground-truth registers."""
 
@@ -108,7 +140,7 @@ class World:
         self.withheld_key = {}    # cid -> (key, units)
         self._cursor = 0
         self._recvd = {}
-        self.net = vnet.Net(self._respond, scripts=self._script)
+        self.net = PeekNet(self._respond, scripts=self._script)
         self.unit_size = {}       # rid -> bytes per delivered body unit
 
     # -- ground truth accounting ------------------------------------------------------------
